@@ -232,7 +232,7 @@ def host_equals_controller(obs):
             seen_regs.add(r)
             name = s["reg_names"][r]
             idx = int(name[1:])
-            cm = s["ctrl_M"]
+            cm = s["ctrl_M"] if name[0] == "M" else s["ctrl_R"]
             cv = cm[idx] if idx < len(cm) else None
             if isinstance(v, str) or (v is not None and v != cv):
                 bad.append(dict(flush=k, handle=f"RegFuture {r} ({name})", host=v, controller=cv))
@@ -311,6 +311,8 @@ def run_sequence(repo, prog, compile_only=True, max_qubits=64, assemble=True):
 
     mm.add_active_register = add
     peaks = []
+    user = []          # per step: registers claimed by builder.new_register() so far (legitimately live)
+    newregs = set()
     for i, s in enumerate(prog):
         try:
             if s[0] == "flush" and compile_only:
@@ -325,5 +327,17 @@ def run_sequence(repo, prog, compile_only=True, max_qubits=64, assemble=True):
             break
         steps.append(sa.active_regs(conn))
         peaks.append(peak[0])
+        collect_newregs([s], newregs)
+        user.append(sorted(it.reg[r].reg.index for r in newregs if r in it.reg))
     # no conn.close(): it would execute what is still pending
+    run_sequence.user = user
+    run_sequence.asm_failures = getattr(it, "asm_failures", 0)
     return steps, err, peaks
+
+
+def collect_newregs(stmts, acc):
+    for s in stmts:
+        if s[0] == "newreg":
+            acc.add(s[1])
+        for b in sa.bodies(s):
+            collect_newregs(b, acc)
